@@ -1084,14 +1084,16 @@ Proof.
   apply code_load_is_true_load; assumption.
 Qed.
 
-(* F6: without H_nodes_nodup the statement is false — an identifier appended twice by
-   SupvisorsMapper.identify makes get_nodes_load count its load twice; here instance 1 (load 60) is alone on its
-   node, a process of load 10 fits (70 <= 100), yet the code finds nobody (120 + 10 > 100). *)
+(* H_nodes_nodup cannot be dropped from the pure strategy theorems: on a node list where an identifier is repeated,
+   get_nodes_load counts its load twice; here instance 1 (load 60) is alone on its node, a process of load 10 fits
+   (70 <= 100), yet the strategy finds nobody (120 + 10 > 100). This was reachable before fix 428ae17
+   (SupvisorsMapper.identify appended at every handshake — former candidate finding F6); since that fix mapper.nodes is
+   duplicate free by construction: see handshakes_nodup below, and the T3 suite 'identify' for the real code. *)
 Definition f6_layout : layout :=
   mkLayout [(1, mkInst gen_SupvisorsInstanceStates_RUNNING (Some 1) 60);
             (2, mkInst gen_SupvisorsInstanceStates_RUNNING (Some 2) 0)] [(1, [1; 1]); (2, [2])].
 
-Theorem nodes_double_count :
+Theorem nodes_nodup_needed :
   exists L ids e reqs,
     layout_wf L reqs = true /\ nodes_consistent L = true /\ nodes_nodup L = false
     /\ get_supvisors_instance S_CONFIG 1 L ids e reqs = Ok None
@@ -1185,6 +1187,56 @@ Proof.
   rewrite aget_map_G by (apply zdedup_In, zmem_In; exact El). eexists. reflexivity.
 Qed.
 
+(* ------------------------------------------------------------------ where H_nodes_nodup comes from *)
+(* mapper.nodes is only ever modified by SupvisorsMapper.identify (identify_nodes): every node list stays duplicate free *)
+Lemma znodup_app_one : forall l i, znodup l = true -> zmem i l = false -> znodup (l ++ [i]) = true.
+Proof.
+  intros l i. induction l as [|x r IH]; simpl; intros Hn Hm; [reflexivity|].
+  apply andb_true_iff in Hn. destruct Hn as [Hx Hr]. unfold zmem in Hm. simpl in Hm.
+  apply orb_false_iff in Hm. destruct Hm as [Hix Hir].
+  apply andb_true_iff. split; [|apply IH; assumption].
+  apply negb_true_iff. rewrite zmem_app. apply negb_true_iff in Hx. rewrite Hx. simpl.
+  unfold zmem. simpl. rewrite orb_false_r. rewrite Z.eqb_sym. exact Hix.
+Qed.
+
+Lemma forallb_aset : forall {V} (p : V -> bool) k v (l : alist V),
+  forallb (fun kv => p (snd kv)) l = true -> p v = true -> forallb (fun kv => p (snd kv)) (aset k v l) = true.
+Proof.
+  intros V p k v l. induction l as [|[k' v'] r IH]; simpl; intros Hl Hv.
+  - rewrite Hv. reflexivity.
+  - apply andb_true_iff in Hl. destruct Hl as [H1 H2]. destruct (Z.eqb k k'); simpl.
+    + rewrite Hv, H2. reflexivity.
+    + rewrite H1. simpl. apply IH; assumption.
+Qed.
+
+Lemma dget_forallb : forall {V} (p : V -> bool) k (l : alist V) d,
+  forallb (fun kv => p (snd kv)) l = true -> p d = true -> p (dget k l d) = true.
+Proof.
+  intros V p k l d Hl Hd. unfold dget. destruct (aget k l) as [v|] eqn:E; [|exact Hd].
+  apply aget_In in E. rewrite forallb_forall in Hl. exact (Hl _ E).
+Qed.
+
+Theorem identify_preserves_nodup : forall nodes m i,
+  forallb (fun kv => znodup (snd kv)) nodes = true ->
+  forallb (fun kv => znodup (snd kv)) (identify_nodes nodes m i) = true.
+Proof.
+  intros nodes m i H. unfold identify_nodes. apply (forallb_aset znodup); [exact H|].
+  pose proof (dget_forallb znodup m nodes [] H eq_refl) as Hd.
+  destruct (zmem i (dget m nodes [])) eqn:E; [exact Hd | apply znodup_app_one; assumption].
+Qed.
+
+(* any history of handshakes from the empty map: H_nodes_nodup holds of the result *)
+Theorem handshakes_nodup : forall ops insts,
+  nodes_nodup (mkLayout insts (snd (hs_run ops))) = true.
+Proof.
+  intros ops insts. unfold nodes_nodup, hs_run. simpl.
+  assert (forall st, forallb (fun kv => znodup (snd kv)) (snd st) = true ->
+                     forallb (fun kv => znodup (snd kv)) (snd (fold_left hs_step ops st)) = true) as K.
+  { induction ops as [|o r IH]; intros st H; [exact H|]. simpl. apply IH.
+    unfold hs_step. destruct (h_accepted o); [simpl; apply identify_preserves_nodup; exact H | exact H]. }
+  apply K. reflexivity.
+Qed.
+
 (* ================================================================== distribution rules *)
 Lemma mapM_forall2 : forall {A B} (f : A -> result B) l l',
   mapM f l = Ok l' -> Forall2 (fun x y => f x = Ok y) l l'.
@@ -1195,10 +1247,21 @@ Proof.
     inversion H. constructor; [exact Hy | apply IH; exact Hys].
 Qed.
 
+Lemma mapM_total : forall {A B} (f : A -> result B) l,
+  (forall x, In x l -> exists y, f x = Ok y) -> exists l', mapM f l = Ok l'.
+Proof.
+  intros A B f l. induction l as [|x r IH]; intros H; simpl; [eexists; reflexivity|].
+  destruct (H x (or_introl eq_refl)) as [y Hy]. destruct (IH (fun z Hz => H z (or_intror Hz))) as [ys Hys].
+  rewrite Hy. simpl. rewrite Hys. simpl. eexists. reflexivity.
+Qed.
+
+Lemma Forall2_impl : forall {A B} (P Q : A -> B -> Prop) l l',
+  (forall a b, P a b -> Q a b) -> Forall2 P l l' -> Forall2 Q l l'.
+Proof. intros A B P Q l l' H HF. induction HF; constructor; auto. Qed.
+
 Lemma update_identifier_ok : forall L c r c',
   update_identifier L c r = Ok c' ->
-  exists t, r = Some t /\ c' = mkCmd (c_proc c) (c_load c) (c_stopped c) (Some t) (c_known c)
-            /\ zmem t (c_known c) = true /\ amem t (l_insts L) = true.
+  exists t, r = Some t /\ c' = retarget c t /\ zmem t (c_known c) = true /\ amem t (l_insts L) = true.
 Proof.
   intros L c r c' H. unfold update_identifier in H. destruct r as [t|]; [|discriminate].
   destruct (amem t (l_insts L)) eqn:Ea; [|discriminate].
@@ -1206,24 +1269,55 @@ Proof.
   inversion H. exists t. auto.
 Qed.
 
-Lemma Forall2_impl : forall {A B} (P Q : A -> B -> Prop) l l',
-  (forall a b, P a b -> Q a b) -> Forall2 P l l' -> Forall2 Q l l'.
-Proof. intros A B P Q l l' H HF. induction HF; constructor; auto. Qed.
+Lemma running_known : forall L i, In i (running_identifiers L) -> amem i (l_insts L) = true.
+Proof.
+  intros L i H. unfold running_identifiers in H. apply in_map_iff in H. destruct H as [[k v] [Hk Hin]].
+  simpl in Hk. subst k. apply filter_In in Hin. destruct Hin as [Hin _]. apply amem_aget.
+  clear -Hin. induction (l_insts L) as [|[k' v'] r IH]; [contradiction|]. simpl.
+  destruct (Z.eqb i k') eqn:E; [eexists; reflexivity|]. apply IH. destruct Hin as [Hin|Hin]; [|exact Hin].
+  inversion Hin. subst. rewrite Z.eqb_refl in E. discriminate.
+Qed.
+
+Lemma eligible_known : forall c i, eligible c i = true -> zmem i (c_known c) = true /\ zmem i (c_disabled c) = false.
+Proof.
+  intros c i H. unfold eligible in H. apply andb_true_iff in H. destruct H as [Hk Hd]. split; [exact Hk|].
+  rewrite Hk in Hd. simpl in Hd. apply negb_true_iff. exact Hd.
+Qed.
 
 Section Distribution.
   Variable nl : Z -> Z.
   Variable L : layout.
   Hypothesis Hnl : forall m, nl m = node_code_load L m.
 
+  (* one command placed among the chosen identifiers (SINGLE_NODE loop body, on_command_added): either nobody
+     among the identifiers that know the program and have it enabled can take its load and the command is left
+     as it is, or it is targeted at what the strategy picks among them — an eligible identifier. *)
+  Lemma place_among_ok : forall s local idents reqs c c',
+    place_among s local L idents reqs c = Ok c' ->
+    (c' = c /\ forall i, (s = S_LOCAL -> i = local) ->
+                         ~ Valid nl L (filter (eligible c) idents) (c_load c) reqs i)
+    \/ (exists t, c' = retarget c t /\ In t idents /\ eligible c t = true
+                  /\ Valid nl L (filter (eligible c) idents) (c_load c) reqs t
+                  /\ spec_accepts nl s local L (filter (eligible c) idents) (c_load c) reqs (Some t) = true).
+  Proof.
+    intros s local idents reqs c c' H. unfold place_among in H. apply bind_ok in H. destruct H as [r [Hr H]].
+    destruct r as [t|].
+    - right. apply update_identifier_ok in H. destruct H as [t' [Et [Hc _]]]. inversion Et. subst t'.
+      exists t. split; [exact Hc|].
+      pose proof (result_valid nl L Hnl _ _ _ _ _ _ Hr) as Hv. pose proof Hv as [Hin _].
+      apply filter_In in Hin. destruct Hin as [Hin He]. split; [exact Hin|]. split; [exact He|]. split; [exact Hv|].
+      apply model_refines_spec; assumption.
+    - left. injection H as E. subst c'. split; [reflexivity|]. exact (proj1 (none_iff_no_valid nl L Hnl _ _ _ _ _ _ Hr) eq_refl).
+  Qed.
+
   (* SINGLE_INSTANCE: every command of the job gets the same instance, chosen by the requested strategy among the
-     APPLICATION's identifiers for the load of the whole start sequence; otherwise nothing is assigned and no
-     instance could carry it. *)
+     APPLICATION's identifiers for the load of the whole start sequence, and every program is known there;
+     otherwise nothing is assigned and no instance could carry it. *)
   Theorem single_instance_one_target : forall s local app_ids app_load J J',
     distribute_to_single_instance s local L app_ids app_load J = Ok J' ->
     (exists t,
         j_identifiers J' = [t]
-        /\ Forall2 (fun c c' => c' = mkCmd (c_proc c) (c_load c) (c_stopped c) (Some t) (c_known c))
-                   (j_planned J) (j_planned J')
+        /\ Forall2 (fun c c' => c' = retarget c t /\ In t (c_known c)) (j_planned J) (j_planned J')
         /\ In t app_ids
         /\ Valid nl L app_ids app_load (load_requests J) t
         /\ spec_accepts nl s local L app_ids app_load (load_requests J) (Some t) = true)
@@ -1235,7 +1329,8 @@ Section Distribution.
     - left. apply bind_ok in H. destruct H as [pl [Hpl H]]. inversion H. subst J'. simpl.
       exists t. split; [reflexivity|]. split.
       + apply mapM_forall2 in Hpl. eapply Forall2_impl; [|exact Hpl]. intros c c' Hc. cbv beta in Hc.
-        apply update_identifier_ok in Hc. destruct Hc as [t' [Et [Hc _]]]. inversion Et. subst t'. exact Hc.
+        apply update_identifier_ok in Hc. destruct Hc as [t' [Et [Hc [Hk _]]]]. inversion Et. subst t'.
+        split; [exact Hc | apply zmem_In; exact Hk].
       + pose proof (result_valid nl L Hnl _ _ _ _ _ _ Hr) as Hv. split; [apply Hv|]. split; [exact Hv|].
         apply model_refines_spec; assumption.
     - right. inversion H. subst J'. split; [reflexivity|].
@@ -1251,9 +1346,10 @@ Section Distribution.
     exists i0. split; [exact Hr | apply machine_of_ok; exact Hm'].
   Qed.
 
-  (* SINGLE_NODE: either nothing is assigned, or all targets are application identifiers listed in ONE node's
-     identifier list — the node of the instance the strategy picks for the whole start-sequence load — and each
-     target is what the strategy picks among them for that command's load. *)
+  (* SINGLE_NODE: either nothing is assigned, or identifiers = the application identifiers listed in ONE node's
+     identifier list — the node of the instance the strategy picks for the whole start-sequence load — and every
+     command is placed among them as place_among_ok says (eligible target picked by the strategy for that command's
+     load, or no target when nobody qualifies). *)
   Theorem single_node_one_node : forall s local app_ids app_load J J',
     distribute_to_single_node s local L app_ids app_load J = Ok J' ->
     (j_identifiers J' = [] /\ j_planned J' = j_planned J)
@@ -1261,10 +1357,13 @@ Section Distribution.
            aget m (l_nodes L) = Some ids_m
            /\ node_opt L i0 = Some m /\ Valid nl L app_ids app_load (load_requests J) i0
            /\ j_identifiers J' = filter (fun i => zmem i ids_m) app_ids
-           /\ Forall2 (fun c c' => exists t,
-                           c' = mkCmd (c_proc c) (c_load c) (c_stopped c) (Some t) (c_known c)
-                           /\ In t ids_m /\ In t app_ids
-                           /\ spec_accepts nl s local L (j_identifiers J') (c_load c) (load_requests J) (Some t) = true)
+           /\ Forall2 (fun c c' =>
+                         (c' = c /\ forall i, (s = S_LOCAL -> i = local) ->
+                                      ~ Valid nl L (filter (eligible c) (j_identifiers J')) (c_load c) (load_requests J) i)
+                         \/ (exists t, c' = retarget c t
+                                       /\ In t ids_m /\ In t app_ids /\ eligible c t = true
+                                       /\ spec_accepts nl s local L (filter (eligible c) (j_identifiers J'))
+                                                       (c_load c) (load_requests J) (Some t) = true))
                       (j_planned J) (j_planned J')).
   Proof.
     intros s local app_ids app_load J J' H. unfold distribute_to_single_node in H.
@@ -1280,161 +1379,145 @@ Section Distribution.
       subst nids. exists m, ids_m, i0. split; [exact Em|]. split; [exact Hn0|].
       split; [exact (result_valid nl L Hnl _ _ _ _ _ _ Hi0)|]. split; [reflexivity|].
       apply mapM_forall2 in Hpl. eapply Forall2_impl; [|exact Hpl]. intros c c' Hc. cbv beta in Hc.
-      apply bind_ok in Hc. destruct Hc as [r [Hr Hc]]. apply update_identifier_ok in Hc.
-      destruct Hc as [t [Et [Hc _]]]. subst r. exists t. split; [exact Hc|].
-      pose proof (result_valid nl L Hnl _ _ _ _ _ _ Hr) as [Hin _]. apply filter_In in Hin.
-      destruct Hin as [Hin Hz]. split; [apply zmem_In; exact Hz|]. split; [exact Hin|].
-      apply model_refines_spec; assumption.
+      apply place_among_ok in Hc. destruct Hc as [Hc|[t [Hc [Hin [He [_ Hs]]]]]]; [left; exact Hc|].
+      right. exists t. apply filter_In in Hin. destruct Hin as [Hin Hz].
+      split; [exact Hc|]. split; [apply zmem_In; exact Hz|]. split; [exact Hin|]. split; [exact He | exact Hs].
   Qed.
 
   (* with consistent node lists, "listed in one node's identifier list" means "located on one single node" *)
   Corollary single_node_targets_same_node : forall s local app_ids app_load J J',
     nodes_consistent L = true ->
+    (forall c, In c (j_planned J) -> c_target c = None) ->
     distribute_to_single_node s local L app_ids app_load J = Ok J' ->
     j_identifiers J' <> [] ->
     exists m, forall c' t, In c' (j_planned J') -> c_target c' = Some t -> node_opt L t = Some m.
   Proof.
-    intros s local app_ids app_load J J' Hc H Hne.
+    intros s local app_ids app_load J J' Hc Hnone H Hne.
     destruct (single_node_one_node _ _ _ _ _ _ H) as [[He _]|[m [ids_m [i0 [Em [_ [_ [_ HF]]]]]]]]; [congruence|].
     exists m. intros c' t Hin Ht.
     unfold nodes_consistent in Hc. apply andb_true_iff in Hc. destruct Hc as [Hc _].
     apply andb_true_iff in Hc. destruct Hc as [_ C3]. rewrite forallb_forall in C3.
     apply aget_In in Em. specialize (C3 _ Em). simpl in C3. rewrite forallb_forall in C3.
-    clear -HF Hin Ht C3. induction HF as [|c c2 l l' Hcc HF IH]; [contradiction|].
+    clear -HF Hin Ht C3 Hnone. induction HF as [|c c2 l l' Hcc HF IH]; [contradiction|].
     destruct Hin as [Hin|Hin].
-    - subst c2. destruct Hcc as [t' [Ec [Hm _]]]. subst c'. simpl in Ht. inversion Ht. subst t'.
-      apply node_is_some. apply C3. exact Hm.
-    - apply IH. exact Hin.
+    - subst c2. destruct Hcc as [[Ec _]|[t' [Ec [Hm _]]]].
+      + subst c'. rewrite (Hnone c (or_introl eq_refl)) in Ht. discriminate.
+      + subst c'. simpl in Ht. inversion Ht. subst t'. apply node_is_some. apply C3. exact Hm.
+    - apply IH; [intros c0 Hc0; apply Hnone; right; exact Hc0 | exact Hin].
   Qed.
 
-  (* a command added later to a non-distributed job stays on the chosen instance(s) *)
+  (* a command added later to a non-distributed job stays on the chosen instance(s), on an eligible one *)
   Theorem on_command_added_in_identifiers : forall d s local J c c',
     on_command_added d s local L J c = Ok c' ->
     c' = c
     \/ (d <> D_ALL_INSTANCES /\ exists t,
-           c' = mkCmd (c_proc c) (c_load c) (c_stopped c) (Some t) (c_known c)
-           /\ In t (j_identifiers J)
-           /\ spec_accepts nl s local L (j_identifiers J) (c_load c) (load_requests J) (Some t) = true).
+           c' = retarget c t /\ In t (j_identifiers J) /\ eligible c t = true
+           /\ spec_accepts nl s local L (filter (eligible c) (j_identifiers J)) (c_load c) (load_requests J) (Some t) = true).
   Proof.
     intros d s local J c c' H. unfold on_command_added in H.
-    assert (forall (Hd : d <> D_ALL_INSTANCES),
-               match j_identifiers J with
-               | [] => Ok c
-               | _ :: _ => bind (get_supvisors_instance s local L (j_identifiers J) (c_load c) (load_requests J))
-                                (fun r => match r with Some t => update_identifier L c (Some t) | None => Ok c end)
-               end = Ok c' ->
-               c' = c \/ (d <> D_ALL_INSTANCES /\ exists t,
-                            c' = mkCmd (c_proc c) (c_load c) (c_stopped c) (Some t) (c_known c)
-                            /\ In t (j_identifiers J)
-                            /\ spec_accepts nl s local L (j_identifiers J) (c_load c) (load_requests J) (Some t) = true)) as K.
+    assert (d <> D_ALL_INSTANCES ->
+            match j_identifiers J with
+            | [] => Ok c
+            | _ :: _ => place_among s local L (j_identifiers J) (load_requests J) c
+            end = Ok c' ->
+            c' = c \/ (d <> D_ALL_INSTANCES /\ exists t,
+                         c' = retarget c t /\ In t (j_identifiers J) /\ eligible c t = true
+                         /\ spec_accepts nl s local L (filter (eligible c) (j_identifiers J)) (c_load c)
+                                         (load_requests J) (Some t) = true)) as K.
     { intros Hd H2. destruct (j_identifiers J) as [|x xs] eqn:Ej; [inversion H2; auto|]. rewrite <- Ej in *.
-      apply bind_ok in H2. destruct H2 as [r [Hr H2]]. destruct r as [t|]; [|inversion H2; auto].
-      right. split; [exact Hd|]. apply update_identifier_ok in H2. destruct H2 as [t' [Et [Hc _]]]. inversion Et. subst t'.
-      exists t. split; [exact Hc|]. split; [apply (result_valid nl L Hnl _ _ _ _ _ _ Hr)|].
-      apply model_refines_spec; assumption. }
+      apply place_among_ok in H2. destruct H2 as [[Hc _]|[t [Hc [Hin [He [_ Hs]]]]]]; [left; exact Hc|].
+      right. split; [exact Hd|]. exists t. auto. }
     destruct d; [inversion H; auto | apply K; [discriminate | exact H] | apply K; [discriminate | exact H]].
   Qed.
 End Distribution.
 
-(* ------------------------------------------------------------------ SINGLE_NODE raises only in two input classes *)
-Lemma mapM_total : forall {A B} (f : A -> result B) l,
-  (forall x, In x l -> exists y, f x = Ok y) -> exists l', mapM f l = Ok l'.
+(* ------------------------------------------------------------------ the distribution rules raise nothing *)
+Lemma place_among_total : forall L s local idents reqs c,
+  layout_wf L reqs = true -> exists c', place_among s local L idents reqs c = Ok c'.
 Proof.
-  intros A B f l. induction l as [|x r IH]; intros H; simpl; [eexists; reflexivity|].
-  destruct (H x (or_introl eq_refl)) as [y Hy]. destruct (IH (fun z Hz => H z (or_intror Hz))) as [ys Hys].
-  rewrite Hy. simpl. rewrite Hys. simpl. eexists. reflexivity.
+  intros L s local idents reqs c Hwf. unfold place_among.
+  destruct (wf_no_crash s local L (filter (eligible c) idents) (c_load c) reqs Hwf) as [r Hr]. rewrite Hr. simpl.
+  destruct r as [t|]; [|eexists; reflexivity].
+  pose proof (result_valid (node_code_load L) L (fun _ => eq_refl) _ _ _ _ _ _ Hr) as [Hin [Hrun _]].
+  apply filter_In in Hin. destruct Hin as [_ He]. apply eligible_known in He. destruct He as [Hk _].
+  unfold update_identifier. rewrite (running_known _ _ Hrun), Hk. eexists. reflexivity.
 Qed.
 
-Lemma running_known : forall L i, In i (running_identifiers L) -> amem i (l_insts L) = true.
-Proof.
-  intros L i H. unfold running_identifiers in H. apply in_map_iff in H. destruct H as [[k v] [Hk Hin]].
-  simpl in Hk. subst k. apply filter_In in Hin. destruct Hin as [Hin _]. apply amem_aget.
-  clear -Hin. induction (l_insts L) as [|[k' v'] r IH]; [contradiction|]. simpl.
-  destruct (Z.eqb i k') eqn:E; [eexists; reflexivity|]. apply IH. destruct Hin as [Hin|Hin]; [|exact Hin].
-  inversion Hin. subst. rewrite Z.eqb_refl in E. discriminate.
-Qed.
-
-(* Under a well-formed, consistent layout, distribute_to_single_node raises nothing provided
-   H_cmd_in_sequence : no planned command is heavier than the start-sequence load used to choose the node
-                       (false for a start_process of a process outside the start sequence: class 'single-node-overload'),
-   H_node_knows_all  : every planned process is known by every candidate identifier (false in candidate finding F7). *)
+(* SINGLE_NODE (after fix b1324b8): a well-formed layout is enough — no hypothesis on which instance knows which
+   program (former H_node_knows_all, candidate finding F7) nor on the command loads (former H_cmd_in_sequence). *)
 Theorem single_node_no_crash : forall L s local app_ids app_load J,
-  layout_wf L (load_requests J) = true -> nodes_consistent L = true ->
-  (forall c, In c (j_planned J) -> c_load c <= app_load) ->
-  (forall c i, In c (j_planned J) -> In i app_ids -> In i (c_known c)) ->
+  layout_wf L (load_requests J) = true ->
   exists J', distribute_to_single_node s local L app_ids app_load J = Ok J'.
 Proof.
-  intros L s local app_ids app_load J Hwf Hcons Hload Hknown.
-  set (nl := node_code_load L). assert (forall m, nl m = node_code_load L m) as Hnl by reflexivity.
-  unfold distribute_to_single_node.
+  intros L s local app_ids app_load J Hwf. unfold distribute_to_single_node.
   destruct (wf_no_crash s local L app_ids app_load (load_requests J) Hwf) as [r Hr].
   unfold get_node. rewrite Hr. simpl.
-  destruct r as [i0|]; simpl.
-  2:{ assert (forall l : list Z, filter (fun _ : Z => false) l = []) as Hf
-        by (intros l; induction l; auto).
-      unfold zmem. simpl. rewrite Hf. eexists. reflexivity. }
-  pose proof (result_valid nl L Hnl _ _ _ _ _ _ Hr) as [Hin0 [Hrun0 Hcap0]].
-  pose proof (model_refines_spec nl _ _ _ _ _ _ _ Hnl Hr) as Hspec0. apply spec_some in Hspec0.
-  destruct Hspec0 as [_ Hloc0].
-  (* the chosen instance has a machine id *)
-  pose proof Hwf as Hwf'. unfold layout_wf in Hwf'. apply andb_true_iff in Hwf'. destruct Hwf' as [Hwf' _].
-  apply andb_true_iff in Hwf'. destruct Hwf' as [_ W2]. rewrite forallb_forall in W2.
-  pose proof (W2 _ Hrun0) as Hn0. destruct (node_opt L i0) as [m|] eqn:En0; [|discriminate].
-  assert (machine_of L i0 = Ok m) as ->.
-  { unfold machine_of, inst_of. unfold node_opt in En0. destruct (aget i0 (l_insts L)) as [x|]; [|discriminate].
-    simpl. rewrite En0. reflexivity. }
-  simpl.
-  set (idents := filter (fun i => zmem i (dget m (l_nodes L) [])) app_ids).
-  destruct idents as [|x xs] eqn:Eid; [eexists; reflexivity|]. rewrite <- Eid. 
-  (* i0 is one of the identifiers of the chosen node *)
-  assert (In i0 idents) as Hi0.
-  { unfold idents. apply filter_In. split; [exact Hin0|].
-    unfold nodes_consistent in Hcons. apply andb_true_iff in Hcons. destruct Hcons as [_ C4].
-    rewrite forallb_forall in C4. unfold node_opt in En0.
-    destruct (aget i0 (l_insts L)) as [x0|] eqn:Ex0; [|discriminate]. apply aget_In in Ex0.
-    specialize (C4 _ Ex0). simpl in C4. rewrite En0 in C4. exact C4. }
-  destruct (mapM_total (fun c => bind (get_supvisors_instance s local L idents (c_load c) (load_requests J))
-                                      (fun r => update_identifier L c r)) (j_planned J)) as [pl Hpl].
-  { intros c Hc.
-    destruct (wf_no_crash s local L idents (c_load c) (load_requests J) Hwf) as [r' Hr'].
-    rewrite Hr'. simpl.
-    destruct r' as [t|].
-    - pose proof (result_valid nl L Hnl _ _ _ _ _ _ Hr') as [Hint [Hrunt _]].
-      unfold update_identifier. rewrite (running_known _ _ Hrunt).
-      assert (zmem t (c_known c) = true) as ->.
-      { apply zmem_In. apply Hknown; [exact Hc|]. unfold idents in Hint. apply filter_In in Hint. apply Hint. }
-      eexists. reflexivity.
-    - exfalso. apply (proj1 (none_iff_no_valid nl L Hnl _ _ _ _ _ _ Hr') eq_refl i0 Hloc0).
-      split; [exact Hi0|]. split; [exact Hrun0|]. specialize (Hload c Hc). lia. }
-  rewrite Eid in Hpl. rewrite Eid. rewrite Hpl. simpl. eexists. reflexivity.
+  assert (exists mo, match r with
+                     | Some i => bind (machine_of L i) (fun m => Ok (Some m))
+                     | None => Ok None
+                     end = Ok mo) as [mo Hmo].
+  { destruct r as [i0|]; [|eexists; reflexivity].
+    pose proof (result_valid (node_code_load L) L (fun _ => eq_refl) _ _ _ _ _ _ Hr) as [_ [Hrun _]].
+    pose proof Hwf as Hwf'. unfold layout_wf in Hwf'. apply andb_true_iff in Hwf'. destruct Hwf' as [Hwf' _].
+    apply andb_true_iff in Hwf'. destruct Hwf' as [_ W2]. rewrite forallb_forall in W2.
+    specialize (W2 _ Hrun). unfold machine_of, inst_of. unfold node_opt in W2.
+    destruct (aget i0 (l_insts L)) as [x|]; [|discriminate]. simpl.
+    destruct (i_node x); [eexists; reflexivity | discriminate]. }
+  rewrite Hmo. simpl.
+  destruct (filter _ app_ids) as [|x xs] eqn:Eid; [eexists; reflexivity|]. rewrite <- Eid.
+  destruct (mapM_total (place_among s local L (filter (fun i => zmem i match mo with
+                                                                        | Some m => dget m (l_nodes L) []
+                                                                        | None => []
+                                                                        end) app_ids) (load_requests J))
+                       (j_planned J)) as [pl Hpl].
+  { intros c _. apply place_among_total. exact Hwf. }
+  rewrite Hpl. simpl. eexists. reflexivity.
 Qed.
 
-(* the two classes are real: replayed on ApplicationStartJobs by harness/drv_strategy.py (corpus of suite 'distribute') *)
+(* SINGLE_INSTANCE raises nothing when every program of the job is known by every application identifier
+   (what ApplicationStatus.possible_identifiers guarantees: it intersects the info_map keys of all processes) *)
+Theorem single_instance_no_crash : forall L s local app_ids app_load J,
+  layout_wf L (load_requests J) = true ->
+  (forall c i, In c (j_planned J) -> In i app_ids -> In i (c_known c)) ->
+  exists J', distribute_to_single_instance s local L app_ids app_load J = Ok J'.
+Proof.
+  intros L s local app_ids app_load J Hwf Hknown. unfold distribute_to_single_instance.
+  destruct (wf_no_crash s local L app_ids app_load (load_requests J) Hwf) as [r Hr]. rewrite Hr.
+  cbv beta iota delta [bind].
+  destruct r as [t|]; [|eexists; reflexivity].
+  pose proof (result_valid (node_code_load L) L (fun _ => eq_refl) _ _ _ _ _ _ Hr) as [Hin [Hrun _]].
+  destruct (mapM_total (fun c => update_identifier L c (Some t)) (j_planned J)) as [pl Hpl].
+  { intros c Hc. unfold update_identifier. rewrite (running_known _ _ Hrun).
+    assert (zmem t (c_known c) = true) as -> by (apply zmem_In; apply Hknown; assumption).
+    eexists. reflexivity. }
+  rewrite Hpl. eexists. reflexivity.
+Qed.
+
+(* on_command_added raises nothing either *)
+Theorem on_command_added_no_crash : forall L d s local J c,
+  layout_wf L (load_requests J) = true -> exists c', on_command_added d s local L J c = Ok c'.
+Proof.
+  intros L d s local J c Hwf. unfold on_command_added.
+  destruct d; [eexists; reflexivity | |]; (destruct (j_identifiers J); [eexists; reflexivity|]; apply place_among_total; exact Hwf).
+Qed.
+
+(* the former witnesses of the two SINGLE_NODE exceptions (before fix b1324b8), now placed or left without target *)
+Definition RUN := gen_SupvisorsInstanceStates_RUNNING.
+
 Definition f7_layout : layout :=
-  mkLayout [(1, mkInst gen_SupvisorsInstanceStates_RUNNING (Some 1) 0);
-            (3, mkInst gen_SupvisorsInstanceStates_RUNNING (Some 1) 0)] [(1, [1; 3])].
+  mkLayout [(1, mkInst RUN (Some 1) 0); (3, mkInst RUN (Some 1) 0)] [(1, [1; 3])].
 
-Theorem single_node_unknown_process_crashes :
-  exists L app_ids app_load J,
-    layout_wf L (load_requests J) = true /\ nodes_consistent L = true /\ nodes_nodup L = true
-    /\ (forall c, In c (j_planned J) -> c_load c <= app_load)
-    /\ distribute_to_single_node S_CONFIG 1 L app_ids app_load J = Crash TypeError.
-Proof.
-  exists f7_layout, [1; 3], 20, (mkJobs [] [mkCmd 0 10 true None [1]; mkCmd 1 10 true None [3]] []).
-  split; [reflexivity|]. split; [reflexivity|]. split; [reflexivity|]. split; [|reflexivity].
-  intros c [Hc|[Hc|[]]]; subst c; simpl; lia.
-Qed.
+Example single_node_unknown_process_placed :
+  distribute_to_single_node S_CONFIG 1 f7_layout [1; 3] 20
+                            (mkJobs [] [mkCmd 0 10 true None [1] []; mkCmd 1 10 true None [3] []] [])
+  = Ok (mkJobs [] [mkCmd 0 10 true (Some 1) [1] []; mkCmd 1 10 true (Some 3) [3] []] [1; 3]).
+Proof. vm_compute. reflexivity. Qed.
 
-Theorem single_node_overload_crashes :
-  exists L app_ids app_load J,
-    layout_wf L (load_requests J) = true /\ nodes_consistent L = true /\ nodes_nodup L = true
-    /\ (forall c i, In c (j_planned J) -> In i app_ids -> In i (c_known c))
-    /\ distribute_to_single_node S_CONFIG 1 L app_ids app_load J = Crash KeyError.
-Proof.
-  exists (mkLayout [(1, mkInst gen_SupvisorsInstanceStates_RUNNING (Some 1) 60)] [(1, [1])]), [1], 10, (mkJobs [] [mkCmd 0 50 true None [1]] []).
-  split; [reflexivity|]. split; [reflexivity|]. split; [reflexivity|]. split; [|reflexivity].
-  intros c i [Hc|[]] Hi; subst c; exact Hi.
-Qed.
+Example single_node_overload_left_untargeted :
+  distribute_to_single_node S_CONFIG 1 (mkLayout [(1, mkInst RUN (Some 1) 60)] [(1, [1])]) [1] 10
+                            (mkJobs [] [mkCmd 0 50 true None [1] []] [])
+  = Ok (mkJobs [] [mkCmd 0 50 true None [1] []] [1]).
+Proof. vm_compute. reflexivity. Qed.
 
 (* ================================================================== property-level statements: true node load *)
 Section TrueReading.
@@ -1458,8 +1541,6 @@ Section TrueReading.
 End TrueReading.
 
 (* ================================================================== examples: the hypotheses are satisfiable *)
-Definition RUN := gen_SupvisorsInstanceStates_RUNNING.
-
 (* six instances on two nodes, instance 5 not running, a pending request of 5 on instance 3 *)
 Definition ex_layout : layout :=
   mkLayout [(1, mkInst RUN (Some 1) 20); (2, mkInst RUN (Some 2) 10); (3, mkInst RUN (Some 1) 10);
@@ -1490,32 +1571,32 @@ Proof. vm_compute. reflexivity. Qed.
 Example ex_none : get_supvisors_instance S_LESS_LOADED 1 ex_layout ex_ids 70 ex_reqs = Ok None.
 Proof. vm_compute. reflexivity. Qed.   (* 35 + 70 > 100 and 60 + 70 > 100 *)
 
+(* program 0 is known everywhere, program 1 is not known on instance 3 and disabled on instance 1 *)
 Definition ex_jobs : jobs :=
-  mkJobs [] [mkCmd 0 10 true None ex_ids; mkCmd 1 20 true None ex_ids] [].
+  mkJobs [] [mkCmd 0 10 true None ex_ids []; mkCmd 1 20 true None [1; 2; 4; 5; 6] [1]] [].
 
 Example ex_single_instance :
-  distribute_to_single_instance S_LESS_LOADED 1 ex_layout ex_ids 30 ex_jobs
-  = Ok (mkJobs [] [mkCmd 0 10 true (Some 3) ex_ids; mkCmd 1 20 true (Some 3) ex_ids] [3]).
-Proof. vm_compute. reflexivity. Qed.   (* no pending request here: 2, 3, 6 tie on load 10, node load 30 < 60 picks 3 *)
+  distribute_to_single_instance S_LESS_LOADED 1 ex_layout [2; 4; 6] 30 ex_jobs
+  = Ok (mkJobs [] [mkCmd 0 10 true (Some 2) ex_ids []; mkCmd 1 20 true (Some 2) [1; 2; 4; 5; 6] [1]] [2]).
+Proof. vm_compute. reflexivity. Qed.
 
 Example ex_single_node :
   distribute_to_single_node S_LESS_LOADED 1 ex_layout ex_ids 30 ex_jobs
-  = Ok (mkJobs [] [mkCmd 0 10 true (Some 3) ex_ids; mkCmd 1 20 true (Some 3) ex_ids] [1; 3; 5]).
-Proof. vm_compute. reflexivity. Qed.   (* node 1 is chosen through instance 3; identifiers = application ids listed on node 1 *)
+  = Ok (mkJobs [] [mkCmd 0 10 true (Some 3) ex_ids []; mkCmd 1 20 true None [1; 2; 4; 5; 6] [1]] [1; 3; 5]).
+Proof. vm_compute. reflexivity. Qed.
+(* no pending request here: 2, 3, 6 tie on load 10, node load 30 < 60 picks 3, hence node 1; identifiers = application
+   ids listed on node 1; program 1 has no eligible instance there (unknown on 3, disabled on 1, 5 not RUNNING) *)
 
-Example ex_single_node_hypotheses :
-  layout_wf ex_layout (load_requests ex_jobs) = true
-  /\ (forall c, In c (j_planned ex_jobs) -> c_load c <= 30)
-  /\ (forall c i, In c (j_planned ex_jobs) -> In i ex_ids -> In i (c_known c)).
-Proof.
-  split; [reflexivity|]. split.
-  - intros c [H|[H|[]]]; subst c; simpl; lia.
-  - intros c i [H|[H|[]]] Hi; subst c; exact Hi.
-Qed.
+Example ex_single_node_hypotheses : layout_wf ex_layout (load_requests ex_jobs) = true.
+Proof. reflexivity. Qed.
 
 Example ex_on_command_added :
   on_command_added D_SINGLE_NODE S_LESS_LOADED 1 ex_layout
-                   (mkJobs [mkCmd 0 10 true (Some 2) ex_ids] [mkCmd 1 20 true None ex_ids] [2; 4; 6])
-                   (mkCmd 1 20 true None ex_ids)
-  = Ok (mkCmd 1 20 true (Some 6) ex_ids).
+                   (mkJobs [mkCmd 0 10 true (Some 2) ex_ids []] [mkCmd 1 20 true None ex_ids []] [2; 4; 6])
+                   (mkCmd 1 20 true None ex_ids [])
+  = Ok (mkCmd 1 20 true (Some 6) ex_ids []).
 Proof. vm_compute. reflexivity. Qed.   (* the pending 10 on instance 2 makes 6 the less loaded *)
+
+Example ex_handshakes :
+  snd (hs_run [mkHs 2 1 true; mkHs 3 1 true; mkHs 2 1 true; mkHs 2 1 false]) = [(1, [2; 3])].
+Proof. vm_compute. reflexivity. Qed.   (* instance 2 identified twice (and once refused): listed once *)
